@@ -168,6 +168,6 @@ func checkGRPC(c GRPCCase, o *vf.Obs) error {
 func TestGRPCCodes(t *testing.T) {
 	pand.Init()
 	r := vf.Start(t, "C10")
-	vf.Check(r, genGRPC, checkGRPC)
+	vf.Check(r, genGRPC, vf.LoadTolerant(25*time.Millisecond, checkGRPC))
 	r.Extra("grpc_codes_enumerated_per_case", "0..16 (all defined codes.Code values) in every case")
 }
